@@ -3,7 +3,7 @@
    SigSafe.v, SigValues.v; Print Assumptions follows each. *)
 From Coq Require Import List NArith Bool.
 Import ListNotations.
-Require Import Util SigCore SigLemmas SigInv SigSafe SigSpec SigValues.
+Require Import Util SigCore SigLemmas SigInv SigSafe SigSpec SigValues SigExtra.
 Local Open Scope N_scope.
 
 Theorem C15_default_slot_empty_call_default : S_default_slot_empty.
@@ -25,3 +25,15 @@ Print Assumptions C15_disconnect_empties.
 Theorem C15_operations_on_one_slot_leave_others_alone : S_slot_ops_frame.
 Proof. exact slot_ops_frame. Qed.
 Print Assumptions C15_operations_on_one_slot_leave_others_alone.
+
+(* assignment: the four branches *)
+Theorem C15_assign_copies : S_slot_assign_copies.
+Proof. exact slot_assign_copies. Qed.
+Print Assumptions C15_assign_copies.
+Theorem C15_assign_from_empty_or_invalid_empties : S_slot_assign_from_empty.
+Proof. exact slot_assign_from_empty. Qed.
+Theorem C15_self_assignment_keeps_the_slot : S_slot_self_assign.
+Proof. exact slot_self_assign. Qed.
+Theorem C15_move_assign_transfers : S_slot_move_assign.
+Proof. exact slot_move_assign. Qed.
+Print Assumptions C15_move_assign_transfers.
